@@ -226,6 +226,20 @@ Theorem apply_permutation_is_relabelling : forall (x1 x2 : list Q) idx1 idx2,
 Proof. intros. apply apply_permutation_perm; auto. Qed.
 Print Assumptions apply_permutation_is_relabelling.
 
+(* first-level variances travel with their subjects: for subjects given as (value, variance) pairs, the
+   permuted data vector and the permuted variance vector are the two projections of one relabelled list *)
+Theorem apply_permutation_variances_follow_subjects : forall (s1 s2 : list (Q * Q)) idx1 idx2,
+  fff_twosample_apply_permutation 0%Q (map fst s1) (map fst s2) idx1 idx2
+    = map fst (fff_twosample_apply_permutation (0%Q, 0%Q) s1 s2 idx1 idx2) /\
+  fff_twosample_apply_permutation 0%Q (map snd s1) (map snd s2) idx1 idx2
+    = map snd (fff_twosample_apply_permutation (0%Q, 0%Q) s1 s2 idx1 idx2).
+Proof.
+  intros. split.
+  - exact (apply_permutation_map fst (0%Q, 0%Q) s1 s2 idx1 idx2).
+  - exact (apply_permutation_map snd (0%Q, 0%Q) s1 s2 idx1 idx2).
+Qed.
+Print Assumptions apply_permutation_variances_follow_subjects.
+
 (* ================================================================ statistics *)
 Open Scope Q_scope.
 Theorem mean_antisymmetric : forall x base, x <> [] ->
